@@ -80,6 +80,9 @@ type VC struct {
 	retStack    []*[]*retState
 
 	specAxioms map[string]bool
+	specApps   map[string][]specApp
+	entryArgs  []*Term
+	allowLemma bool
 	unsupported []string
 
 	runs         []*contractRun
